@@ -8,6 +8,9 @@ import (
 
 type BPM uint
 
+// minBPM is the slowest tempo a MIDI tempo event (24 bit microseconds per quarter note) can state.
+const minBPM = 4
+
 func NewBPM(v uint) (BPM, error) {
 	x := BPM(v)
 	return x, x.validate()
@@ -29,6 +32,9 @@ func (b *BPM) UnmarshalYAML(value *yaml.Node) error {
 func (b BPM) validate() error {
 	if b == 0 {
 		return errorx.Invalid("BPM should be positive")
+	}
+	if b < minBPM {
+		return errorx.Invalid("BPM should be at least %d, MIDI tempo cannot express %d", minBPM, b)
 	}
 	return nil
 }
